@@ -57,6 +57,9 @@ NextLevel == /\ phase = "exhausted" /\ round < Rounds
 
 Next == Step \/ NextLevel \/ SaveAndResume
 Spec == Init /\ [][Next]_vars
+(* C10 "and then reports exhaustion": with the generator being called again and again, every level ends *)
+FairSpec == Spec /\ WF_vars(Step)
+ReportsExhaustion == <>(phase = "exhausted" \/ st.raised)
 
 (* C10 *)
 NoRaise == ~st.raised
